@@ -426,6 +426,8 @@ def _polyline_case(desc, ctx, rng):
     for k in range(desc["nops"]):
         ei = rng.randrange(len(E))
         a, b = E[ei]
+        if rng.random() < 0.3:
+            ei -= len(E)  # the same edge designated by its negative index
         ok, r = ctx.call("split_edge", M.mesh.split_edge, m, ei, monitor="result")
         ctx.obs("result", "valid")
         ctx.obs("counts", "split_edge")
